@@ -95,6 +95,9 @@ def reference_verbatim(ctx):
 
 def run(ctx):
     rep = ctx.rep
+    rep.rule("C10.R7", "rod routines do not modify in place what the memoised interpolation kernels (_eval / _deval / A_IB) hand out (K18): strains, energy and internal forces stay functions of the state", 10)
+    from .. import cachepurity as _cp
+    _cp.report(ctx, "C10.R7", ("cardillo/rods/",), floor_note=False)
     rep.rule("C10.R1", "strains have no data path from the interpolated position", 8)
     rep.rule("C10.R2", "consumers discard the position output of the kernels", 8)
     rep.rule("C10.R3", "same kernel / quadrature point / scaling for reference and current strains", 30)
@@ -289,3 +292,9 @@ MUTANTS += [
 NEUTRAL = [
     dict(id="c10-n-r5", what="set_reference_strains stores the reference through np.array", file="cardillo/rods/_base.py",
          old="        self.Q = Q.copy()\n\n        # precompute values of the reference configuration", new="        self.Q = np.array(Q, dtype=float)\n\n        # precompute values of the reference configuration"),]
+RB_ = "cardillo/rods/_base.py"
+MUTANTS += [
+    dict(id="c10-r7-seed", canary=True, what="[seeded by sub-agent] E_pot_el divides the strains returned by the memoised _eval in place", file=RB_,
+         old="            _, _, B_Gamma_bar, B_Kappa_bar = self._eval(\n                qe, qpi, N=self.N_r[el, i], N_xi=self.N_r_xi[el, i]\n            )\n\n            # axial and shear strains\n            B_Gamma = B_Gamma_bar / Ji\n\n            # torsional and flexural strains\n            B_Kappa = B_Kappa_bar / Ji\n",
+         new="            _, _, B_Gamma, B_Kappa = self._eval(\n                qe, qpi, N=self.N_r[el, i], N_xi=self.N_r_xi[el, i]\n            )\n\n            B_Gamma /= Ji\n            B_Kappa /= Ji\n", expect="C10.R7"),
+]
